@@ -33,7 +33,18 @@ def configs():
             out.append({"id": cid, "n": n, "w": 3, "mode": mode, "blo": -3, "bhi": 4, "start": starts[n]})
             cid += 1
     out.append({"id": cid, "n": 2, "w": 4, "mode": "free", "blo": 0, "bhi": 0, "start": [[-2, 0], [1, 3], [3, -1], [0, -3]]})
+    cid += 1
+    # a stretch parameter other than the default: alpha = 8 (sqrt(2/alpha) = 1/2 and sqrt(2 alpha) = 4 are rational)
+    out.append({"id": cid, "n": 2, "w": 3, "mode": "free", "blo": 0, "bhi": 0, "start": starts[2], "alpha": 8})
+    cid += 1
+    out.append({"id": cid, "n": 1, "w": 3, "mode": "box", "blo": -3, "bhi": 4, "start": starts[1], "alpha": 8})
+    for c in out:
+        c.setdefault("alpha", 2)
     return out
+
+
+ZS = {2: [[0, 1], [1, 2], [3, 4]], 8: [[0, 1], [1, 7], [3, 7]]}
+XL = {2: ([1, 1], [1, 1]), 8: ([1, 2], [7, 2])}
 
 
 MC = """---- MODULE MC_Ensemble ----
@@ -63,8 +74,9 @@ CHECK_DEADLOCK FALSE
 
 def explore(cfgs, zset, ua, maxiter, simulate=None, depth=30, seed_=None, timeout=900):
     global CFG
-    recs = ", ".join('[id |-> %d, n |-> %d, w |-> %d, mode |-> "%s", blo |-> %d, bhi |-> %d, start |-> %s]'
-                     % (c["id"], c["n"], c["w"], c["mode"], c["blo"], c["bhi"], tla_val(c["start"])) for c in cfgs)
+    recs = ", ".join('[id |-> %d, n |-> %d, w |-> %d, mode |-> "%s", blo |-> %d, bhi |-> %d, start |-> %s, xl |-> %s, xw |-> %s, zs |-> {%s}]'
+                     % (c["id"], c["n"], c["w"], c["mode"], c["blo"], c["bhi"], tla_val(c["start"]), tla_val(XL[c["alpha"]][0]),
+                        tla_val(XL[c["alpha"]][1]), ", ".join(tla_val(z) for z in ZS[c["alpha"]])) for c in cfgs)
     mod = MC % {"cfgs": "{" + recs + "}", "zset": "{" + ", ".join(tla_val(z) for z in zset) + "}",
                 "ua": "{" + ", ".join(map(str, ua)) + "}"}
     cfg = CFG % {"d": D, "m": M, "maxatt": MAXATTW, "maxiter": maxiter}
@@ -83,7 +95,7 @@ def replay(c, b):
     kw = {}
     if c["mode"] == "box":
         kw["bounds"] = (np.full(c["n"], float(c["blo"])), np.full(c["n"], float(c["bhi"])))
-    ch = EnsembleSampler(posterior=post, starting_positions=start, alpha=2.0, display_progress=False, **kw)
+    ch = EnsembleSampler(posterior=post, starting_positions=start, alpha=float(c["alpha"]), display_progress=False, **kw)
     ch.max_attempts = MAXATTW
     attempts = [{"k": [], "j": d[0], "u": [d[1][0] / d[1][1], mid(d[2], M)]} for d in b["draws"]]
     script = Script(attempts, n_normals=0)
@@ -165,8 +177,8 @@ def judge(ck, c, b, obs, index):
 
 def run_part(ck, tier):
     cfgs = configs()
-    runs = [("exhaustive", dict(zset=[[1, 2]], ua=[0, 63], maxiter=1)),
-            ("simulate", dict(zset=[[0, 1], [1, 2], [3, 4]], ua=[0, 1, 2, 3, 4, 31, 32, 63], maxiter=2,
+    runs = [("exhaustive", dict(zset=[[1, 2], [3, 7]], ua=[0, 63], maxiter=1)),
+            ("simulate", dict(zset=[[0, 1], [1, 2], [3, 4], [1, 7], [3, 7]], ua=[0, 1, 2, 3, 4, 31, 32, 63], maxiter=2,
                               simulate="num=%d" % (120 if tier == "quick" else 1200), depth=24, seed_=seed() + 11))]
     if tier == "thorough":
         runs.insert(1, ("exhaustive2", dict(zset=[[0, 1], [1, 2]], ua=[0, 3, 63], maxiter=1)))
@@ -175,7 +187,7 @@ def run_part(ck, tier):
         if label == "exhaustive2":
             use = cfgs[:2]
         elif label == "exhaustive" and tier == "quick":
-            use = [cfgs[1], cfgs[2]]
+            use = [cfgs[1], cfgs[2], cfgs[5], cfgs[6]]
         r = explore(use, **kw)
         if r.violated:
             ck.violation("spec: Ensemble invariants", {"violated": r.violated}, site="spec")
@@ -191,7 +203,7 @@ def run_part(ck, tier):
             if key in seen:
                 continue
             seen.add(key)
-            c = cfgs[b["cf"]]
+            c = next(x for x in cfgs if x["id"] == b["cf"])
             obs = replay(c, b)
             v = judge(ck, c, b, obs, index)
             verdicts[v] += 1
